@@ -43,9 +43,13 @@ Feed(o, es, i) ==
                    [] e.ev = "mark" -> O!ObsMark(o, Name(e.b))
                    [] e.ev = "probe" -> O!ObsProbe(o, Name(e.b), e.r)
                    [] e.ev = "tick" -> O!ObsTick(o, 1)
-                   [] e.ev = "add" -> O!ObsAdmin(o, "add", Name(e.b), Weight[e.b], "", 201, Items(order', flag'))
-                   [] e.ev = "remove" -> O!ObsAdmin(o, "remove", Name(e.b), 0, "", 200, Items(order', flag'))
-                   [] e.ev = "strategy" -> O!ObsAdmin(o, "strategy", "", 0, e.s, 200, Items(order', flag'))
+                   [] e.ev = "add" -> O!ObsAdmin(o, "add", Name(e.b), Weight[e.b], "", 201, Items(order, flag), Items(order', flag'))
+                   [] e.ev = "remove" -> O!ObsAdmin(o, "remove", Name(e.b), 0, "", 200, Items(order, flag), Items(order', flag'))
+                   [] e.ev = "strategy" -> O!ObsAdmin(o, "strategy", "", 0, e.s, 200, Items(order, flag), Items(order', flag'))
+                   [] e.ev = "add_dup" -> O!ObsAdmin(o, "add", Name(e.b), Weight[e.b], "", 400, Items(order, flag), Items(order', flag'))
+                   [] e.ev = "add_badurl" -> O!ObsAdmin(o, "add", Name(e.b), 1, "", 400, Items(order, flag), Items(order', flag'))
+                   [] e.ev = "strategy_unknown" -> O!ObsAdmin(o, "strategy", "", 0, "fastest", 400, Items(order, flag), Items(order', flag'))
+                   [] e.ev = "remove_absent" -> O!ObsAdmin(o, "remove", Name(e.b), 0, "", 200, Items(order, flag), Items(order', flag'))
                    [] OTHER -> O!Q(o)
        IN LET rest == Feed(o1, es, i + 1) IN [rest EXCEPT !.viol = o1.viol \o rest.viol]
 
@@ -57,6 +61,7 @@ MCNext ==
                      \/ Remove(b) /\ act' = [a |-> "remove", b |-> b]
      \/ \E b \in B, r \in {"ok", "fail"} : SetProbe(b, r) /\ act' = [a |-> "setprobe", b |-> b, r |-> r]
      \/ \E s \in Strategies : SetStrategy(s) /\ act' = [a |-> "strategy", s |-> s]
+     \/ \E b \in B, k \in {"add_dup", "add_badurl", "strategy_unknown", "remove_absent"} : BadOp(k, b) /\ act' = [a |-> k, b |-> b]
      \/ Tick /\ act' = [a |-> "tick"]
   /\ obs' = Feed(obs, evs', 1)
 
